@@ -1600,6 +1600,11 @@ func init() {
 			if k%3 == 1 {
 				startupForeignFields(c, tmp, id, cfg, k/3, 6)
 			}
+			// 4c. ONE genesis object initialises several ledgers in this process (s_genesis_oneobject.go): every ledger that
+			//     ends up initialised holds the full initial state, and a later start on it is refused or finds that state
+			if k%3 == 2 || k == 0 {
+				genesisOneObject(c, tmp, id, cfg, k/3+int(c.Seed%6))
+			}
 			// 5. the node-level path (s_genesis_node.go): node.NewNode on genesis FILES, several nodes in this one process - same path
 			//    with other contents, other path with the same contents, start on the database of the other configuration
 			//    (at most 60 scenarios per run: a node that was initialised but not started cannot be stopped completely, see nodeStart)
